@@ -43,6 +43,7 @@ class Job:
     tier: str = "quick"                           # quick jobs also run in thorough
     restrict_fp: list = field(default_factory=list)  # --restrict-function-pointer args
     extra_gi: list = field(default_factory=list)  # extra goto-instrument flags
+    expect_statics: dict = field(default_factory=dict)  # {function: [names]}: the function's non-const statics must be exactly these (else extraction break)
     pre_unwindset: list = field(default_factory=list)  # loops fully unwound (with unwinding assertions) BEFORE contract instrumentation, "fn.N:k"
     no_dfcc: bool = False                         # plain harness proof (no contracts) e.g. lemma-style S2
     kind: str = "cbmc"                            # cbmc | native (S5/S7 tools)
@@ -558,6 +559,23 @@ def solve(job, b, wd):
     raise Undecided(reason)
 
 
+def check_statics(job, gb):
+    """the harness aliases a function's local statics by name: the set of non-const static-lifetime locals must be exactly the expected one"""
+    rc, o, e = run(["goto-instrument", "--show-symbol-table", gb], timeout=300)
+    found = {}
+    for rec in o.split("\n\n"):
+        f = dict(re.findall(r"^(\w[\w ]*?)\.*: (.*)$", rec, re.M))
+        name, flags, typ = f.get("Symbol", ""), f.get("Flags", ""), f.get("Type", "")
+        if "static_lifetime" not in flags or "::" not in name or typ.startswith("const ") or "$link" in name:
+            continue
+        fn = name.split("::")[0]
+        if fn in job.expect_statics:
+            found.setdefault(fn, set()).add(name.split("::")[-1])
+    for fn, names in job.expect_statics.items():
+        if found.get(fn, set()) != set(names):
+            raise Undecided("extraction break: function-local statics of %s are %s, the harness aliases %s" % (fn, sorted(found.get(fn, set())), sorted(names)))
+
+
 def run_job(job, keep=False):
     t0 = time.time()
     wd = os.path.join(BUILD, re.sub(r"[^A-Za-z0-9_.\-]", "_", job.name))
@@ -568,6 +586,8 @@ def run_job(job, keep=False):
         if job.kind == "native":
             return run_native(job, R, t0)
         a = compile_job(job, wd)
+        if job.expect_statics:
+            check_statics(job, a)
         b = instrument_job(job, a, wd)
         res, solver, cmd = solve(job, b, wd)
         R.solver = solver
